@@ -602,6 +602,19 @@ int EGLPNUM_TYPENAME_ILLlib_chgbnds (
 	int rval = 0;
 	int i;
 
+	/* check the whole list first so that a bad entry changes nothing */
+	for (i = 0; lp && i < cnt; i++)
+	{
+		if (indx[i] < 0 || indx[i] >= lp->O->nstruct ||
+				(lu[i] != 'L' && lu[i] != 'U' && lu[i] != 'B'))
+		{
+			QSlog("EGLPNUM_TYPENAME_ILLlib_chgbnds called with bad entry %d: "
+									"index %d, lu %c", i, indx[i], lu[i]);
+			rval = 1;
+			ILL_CLEANUP;
+		}
+	}
+
 	for (i = 0; i < cnt; i++)
 	{
 		rval = EGLPNUM_TYPENAME_ILLlib_chgbnd (lp, indx[i], lu[i], bnd[i]);
@@ -976,6 +989,49 @@ int EGLPNUM_TYPENAME_ILLlib_addrows (
 	int badfactor = 0;
 
 	EGLPNUM_TYPENAME_EGlpNumInitVar (rng);
+
+	/* check every row first so that a bad one does not leave a prefix behind */
+	for (i = 0; i < num; i++)
+	{
+		if (sense[i] != 'L' && sense[i] != 'G' && sense[i] != 'E' &&
+				sense[i] != 'R')
+		{
+			QSlog("illegal sense %c in EGLPNUM_TYPENAME_ILLlib_addrows", sense[i]);
+			rval = 1;
+			ILL_CLEANUP;
+		}
+		for (j = 0; j < rmatcnt[i]; j++)
+		{
+			if (rmatind[rmatbeg[i] + j] < 0 ||
+					rmatind[rmatbeg[i] + j] >= lp->O->nstruct)
+			{
+				QSlog("EGLPNUM_TYPENAME_ILLlib_addrows called with bad column index: %d",
+										rmatind[rmatbeg[i] + j]);
+				rval = 1;
+				ILL_CLEANUP;
+			}
+		}
+		if (names && names[i])
+		{
+			if (ILLsymboltab_contains (&lp->O->rowtab, names[i]))
+			{
+				QSlog("EGLPNUM_TYPENAME_ILLlib_addrows: row name \"%s\" already in use",
+										names[i]);
+				rval = 1;
+				ILL_CLEANUP;
+			}
+			for (j = 0; j < i; j++)
+			{
+				if (names[j] && strcmp (names[i], names[j]) == 0)
+				{
+					QSlog("EGLPNUM_TYPENAME_ILLlib_addrows: row name \"%s\" given twice",
+											names[i]);
+					rval = 1;
+					ILL_CLEANUP;
+				}
+			}
+		}
+	}
 
 	if (B == 0 || B->rownorms == 0)
 	{
@@ -2149,7 +2205,43 @@ int EGLPNUM_TYPENAME_ILLlib_addcols (
 	int factorok)
 {
 	int rval = 0;
-	int i;
+	int i, j;
+
+	/* check every column first so that a bad one does not leave a prefix behind */
+	for (i = 0; lp && i < num; i++)
+	{
+		for (j = 0; j < cmatcnt[i]; j++)
+		{
+			if (cmatind[cmatbeg[i] + j] < 0 ||
+					cmatind[cmatbeg[i] + j] >= lp->O->nrows)
+			{
+				QSlog("EGLPNUM_TYPENAME_ILLlib_addcols called with bad row index: %d",
+										cmatind[cmatbeg[i] + j]);
+				rval = 1;
+				ILL_CLEANUP;
+			}
+		}
+		if (names && names[i])
+		{
+			if (ILLsymboltab_contains (&lp->O->coltab, names[i]))
+			{
+				QSlog("EGLPNUM_TYPENAME_ILLlib_addcols: column name \"%s\" already in use",
+										names[i]);
+				rval = 1;
+				ILL_CLEANUP;
+			}
+			for (j = 0; j < i; j++)
+			{
+				if (names[j] && strcmp (names[i], names[j]) == 0)
+				{
+					QSlog("EGLPNUM_TYPENAME_ILLlib_addcols: column name \"%s\" given twice",
+											names[i]);
+					rval = 1;
+					ILL_CLEANUP;
+				}
+			}
+		}
+	}
 
 	for (i = 0; i < num; i++)
 	{
